@@ -13,6 +13,7 @@ Line protocol for C16 (activity-coefficient models).
   call nd <id> <T>                `Gamma(x, T)` with that ndarray
   call seq <csv> <T>              `Gamma([..], T)` with a Python list
   f <id> <T>                      `Gamma.f(x, T, *Gamma.args)`
+  ac <csv> <T>                    `Gamma.activity_coefficients(x, T)` (x over the members with groups only)
         answer `g=<csv> fresh=<0|1> x=<csv: the caller's array/list after the call>`
   phi | pcf | idealf              ideal fugacity / mock Poynting / `_ideal_coefficient()` → `g=<1.0>`
 -/
@@ -142,6 +143,12 @@ def step (st : St) (line : String) : St × String :=
         -- `_ideal_coefficient(x, T)`: the scalar 1.0, no array involved
         (st, s!"g={showFloat (idealF (some (st.w.read id)) none none)} fresh=1 x={showFloats (st.w.read id)}")
       else (st, "bad-op")
+    | _, _, _ => (st, "bad-op")
+  | ["ac", xs, T] =>
+    -- `Gamma.activity_coefficients(x, T)`: the kernels on the composition of the members with groups, as given
+    match floats? xs, parseFloat? T, st.obj with
+    | some v, some T, .group kind tb it =>
+      (st, s!"g={showFloats (gammaSub kind tb it T (vget v)).1} fresh=1 x={showFloats v}")
     | _, _, _ => (st, "bad-op")
   | ["phi"] => (st, s!"g={showFloat (idealPhiCall (α := Float) #[] 0 0)}")
   | ["pcf"] => (st, s!"g={showFloat (mockPcfCall (α := Float) 0 0)}")
